@@ -52,6 +52,9 @@ Qed.
 Lemma zr_minus_cos p d h : -1 <= sin p * sin d - cos p * cos d * cos h <= 1.
 Proof. apply comb_bound; [apply sc1 | apply sc1 | apply COS_bound]. Qed.
 
+Lemma sqr_sum_nonneg a b : 0 <= a * a + b * b.
+Proof. nra. Qed.
+
 Lemma atan2_deg_bound y x : -180 < atan2 y x * (180 / PI) <= 180.
 Proof.
   pose proof (atan2_bound y x) as [H1 H2].
@@ -75,7 +78,7 @@ Ltac sph_dec :=
       | _ => pose proof (asin_deg_bound z)
       end
   end;
-  pylra.
+  first [ pylra | apply sqr_sum_nonneg ].
 
 (* the hook: when pyrun reaches a blocked Angle constructor / to_positive call, state its
    value (pyrun then rewrites with it) *)
@@ -202,6 +205,9 @@ Ltac step_inner tac :=
       eval_sub constr:(f Rops (VFloat x) (VInt y)) tac
   | |- context [guard [VFloat ?x] (fun _ : unit => VFloat ?y)] =>
       eval_sub constr:(guard [VFloat x] (fun _ : unit => VFloat y)) tac
+  | |- context [?f Rops (VFloat ?x)] =>
+      let ty := type of (f Rops (VFloat x)) in
+      lazymatch ty with val _ => eval_sub constr:(f Rops (VFloat x)) tac end
   end.
 
 Ltac crun_using tac :=
@@ -231,3 +237,50 @@ Ltac crun_using tac :=
     | pyrun_using tac ]
   end.
 Ltac crun := crun_using sph_dec.
+
+(* ---- latitude from atan2 (z, cos lat) ---- *)
+(* for a unit vector the latitude atan2 z (sqrt (x^2+y^2)) is asin z, poles included *)
+Lemma atan2_asin_unit x y z : x * x + y * y + z * z = 1 -> atan2 z (rho x y) = asin z.
+Proof.
+  intros H. pose proof (unit_z_range x y z H) as Hz. pose proof (asin_bound z) as Hb.
+  pose proof PI_RGT_0 as HPI.
+  assert (Hr : rho x y = cos (asin z)).
+  { rewrite cos_asin by assumption. unfold rho, Rsqr. f_equal. lra. }
+  rewrite Hr. rewrite <- (sin_asin z) at 1 by assumption.
+  rewrite <- (Rmult_1_l (sin (asin z))), <- (Rmult_1_l (cos (asin z))).
+  apply atan2_polar; lra.
+Qed.
+
+(* (X, Y) is the horizontal part of a unit vector divided by k > 0, and the latitude is
+   taken as atan2 z (k sqrt (X^2 + Y^2)) *)
+Lemma lonlat_scaled2 k x y z X Y : 0 < k -> x = k * X -> y = k * Y ->
+  x * x + y * y + z * z = 1 ->
+  uvec (atan2 Y X) (atan2 z (k * sqrt (X * X + Y * Y))) = (x, y, z).
+Proof.
+  intros Hk Hx Hy Hn.
+  assert (E : k * sqrt (X * X + Y * Y) = rho x y).
+  { subst x y. rewrite rho_scale by lra. reflexivity. }
+  rewrite E, (atan2_asin_unit x y z Hn). now apply lonlat_scaled with (k := k).
+Qed.
+
+Lemma atan2_range_nonneg z w : 0 <= w -> - (PI / 2) <= atan2 z w <= PI / 2.
+Proof.
+  intros [Hw | Hw]; pose proof PI_RGT_0 as HPI.
+  - rewrite atan2_pos by assumption. pose proof (atan_bound (z / w)). lra.
+  - subst w. destruct (Rtotal_order z 0) as [Hz | [Hz | Hz]].
+    + rewrite atan2_0_down by assumption. lra.
+    + subst. rewrite atan2_0_0. lra.
+    + rewrite atan2_0_up by assumption. lra.
+Qed.
+
+Lemma r2d_atan2_nonneg_range z w : 0 <= w -> -90 <= r2d (atan2 z w) <= 90.
+Proof.
+  intros Hw. destruct (atan2_range_nonneg z w Hw) as [H1 H2].
+  apply r2d_le in H1, H2. pose proof PI_RGT_0 as HPI.
+  assert (E1 : r2d (- (PI / 2)) = - 90) by (unfold r2d; field; lra).
+  assert (E2 : r2d (PI / 2) = 90) by (unfold r2d; field; lra).
+  lra.
+Qed.
+
+Lemma abs_sqrt_nonneg c a : 0 <= Rabs c * sqrt a.
+Proof. apply Rmult_le_pos; [apply Rabs_pos | apply sqrt_pos]. Qed.
